@@ -113,3 +113,66 @@ func TestRegressCorpusLearnsDeleteDeliveredBeforeTarget(t *testing.T) {
 		t.Fatalf("C06 violated: running corpus IsDeleted=%v with %d claims on the permanode, a corpus loaded from the same rows says IsDeleted=%v with %d claims", liveDel, len(liveClaims), freshDel, len(freshClaims))
 	}
 }
+
+// Generated cases (C07 thorough tier, shards 1 and 4) killed the process with
+// "fatal error: concurrent map read and map write": several signed blobs wait
+// for the same dependency; when it arrives each is re-indexed by its own
+// goroutine, and populateDeleteClaim read the corpus (Corpus.GetBlobMeta) without
+// the index lock while another goroutine added a new blob to it. The Go runtime
+// notices an unsynchronised map access only when the accesses really overlap, so
+// on the unfixed tree this loop reports nothing in most runs (go test -race
+// reports the race at once); it is kept as a smoke test of the shape, and checks
+// the end state of every round.
+func TestRegressConcurrentReindexOfDeleteClaimsWithCorpus(t *testing.T) {
+	if evid.Replaying() {
+		t.Skip()
+	}
+	id := vsign.Test()
+	for round := 0; round < 400; round++ {
+		pn := id.MustSign(schema.NewPlannedPermanode("regress-c06-race"), vworld.SigTime)
+		w := &vworld.World{Withheld: map[int]bool{}, Ids: []*vsign.Identity{id}}
+		add := func(c string) {
+			b := &vworld.Blob{I: len(w.Blobs), Contents: c}
+			b.Ref = b.TB().BlobRef()
+			w.Blobs = append(w.Blobs, b)
+		}
+		add(id.Armored)
+		add(pn.Contents)
+		const nDel = 8
+		for k := 0; k < nDel; k++ {
+			d := id.MustSign(schema.NewDeleteClaim(pn.BlobRef()).SetClaimDate(time.Date(2011, 11, 28, 1, 32, 40+k, 0, time.UTC)), vworld.SigTime)
+			add(d.Contents)
+		}
+		e, err := vworld.NewEnv(w, nil, nil)
+		if err != nil {
+			t.Fatal(err)
+		}
+		lc, err := e.Ix.KeepInMemory()
+		if err != nil {
+			t.Fatal(err)
+		}
+		// permanode and delete claims first: all of them wait for the signer's key
+		// (nothing is committed); the key last: nine goroutines re-index at once,
+		// one adds the permanode to the corpus while the others look it up.
+		order := []int{1}
+		for k := 0; k < nDel; k++ {
+			order = append(order, 2+k)
+		}
+		order = append(order, 0)
+		for _, i := range order {
+			e.Store(i)
+			if err := e.Deliver(i); err != nil {
+				t.Fatal(err)
+			}
+		}
+		e.Await()
+		e.Ix.RLock()
+		del := lc.IsDeleted(pn.BlobRef())
+		cls, _ := lc.AppendClaims(ctxbg, nil, pn.BlobRef(), "", "")
+		e.Ix.RUnlock()
+		if !del || len(cls) != nDel {
+			t.Fatalf("C06 violated: round %d: running corpus IsDeleted=%v with %d claims, want deleted with %d delete claims", round, del, len(cls), nDel)
+		}
+		e.Release()
+	}
+}
